@@ -33,6 +33,7 @@ type Prog struct {
 	SPkg    *ssa.Package
 	SCmd    *ssa.Package
 	Funcs   []*ssa.Function // all source-level functions of the main package (methods, closures, generic instances)
+	Synth   []*ssa.Function // synthetic wrappers/thunks/bound methods of the main package's methods
 	AllPkgs int
 	cg      *callgraph.Graph
 	fixture string // absolute path of the overlay fixture file, "" when none
@@ -148,6 +149,9 @@ func (p *Prog) collectFuncs() {
 	}
 	for fn := range ssautil.AllFunctions(p.SSA) {
 		if fn.Synthetic != "" && !strings.HasPrefix(fn.Synthetic, "instance of") {
+			if obj, ok := fn.Object().(*types.Func); ok && obj != nil && obj.Pkg() == p.Main.Types && fn.Blocks != nil {
+				p.Synth = append(p.Synth, fn)
+			}
 			continue
 		}
 		pkg := fn.Package()
@@ -161,6 +165,7 @@ func (p *Prog) collectFuncs() {
 			add(fn)
 		}
 	}
+	sort.Slice(p.Synth, func(i, j int) bool { return p.Synth[i].String() < p.Synth[j].String() })
 	sort.Slice(p.Funcs, func(i, j int) bool {
 		a, b := p.Funcs[i], p.Funcs[j]
 		if a.Pos() != b.Pos() {
